@@ -734,7 +734,7 @@ func unitC15(e common.Env, p *common.Part) {
 // topic limit 1) and then probes sequentially: the sender has nothing buffered, so a message for a fresh
 // topic must be accepted and released. A slot leaked by a particular interleaving shows up after two rounds.
 func unitC15ctl(e common.Env, p *common.Part) {
-	p.Rule = "real msg.Box (MaxInFlightTopicsBySender=1) under the controlled scheduler: each schedule of a racing configuration {buffered messages; receive(s) || first Send} is replayed on three topics in a row, then a sequential probe demands that the same sender is served on a fresh topic; plus configurations in which one sender at its limit delivers on several fresh topics concurrently (then every topic is started and the topics that released its messages are counted: limit+1 at most); distinct key = (configuration, schedule); non-trivial when the schedule switched threads at least twice"
+	p.Rule = "real msg.Box (MaxInFlightTopicsBySender=1) under the controlled scheduler: each schedule of a racing configuration {buffered messages; receive(s) || first Send} is replayed on three topics in a row, then a sequential probe demands that the same sender is served on a fresh topic; plus configurations in which one sender at its limit delivers on several fresh topics concurrently (then every topic is started and the topics that released its messages are counted: limit+1 at most); plus the collector (mark, yield point, sweep) racing with a delivery of a new sender for the expiring topic, replayed on three topics, all topics started, then a probe; distinct key = (configuration, schedule); non-trivial when the schedule switched threads at least twice"
 	cfgs := []c14cfg{
 		{Name: "recv m1 || Send", Threads: [][]string{{"r:A:7:m1"}, {"s:A"}}, Limit: e.Pick(3000, 100000)},
 		{Name: "m0 buffered; recv m1 || Send", Pre: []string{"r:A:7:m0"}, Threads: [][]string{{"r:A:7:m1"}, {"s:A"}}, Limit: e.Pick(3000, 100000)},
@@ -824,6 +824,104 @@ func unitC15ctl(e common.Env, p *common.Part) {
 		execs, exhaustive := ctlsched.Explore(cfg.Limit, run, func(ch []int) bool { return ch != nil && p.ViolationCount() < 3 })
 		p.SetExhaustive(cfg.Name, exhaustive)
 		p.Sample(map[string]interface{}{"config": cfg.Name, "schedules_enumerated": execs, "exhaustive": exhaustive, "rounds_per_schedule": rounds})
+	}
+	// the collector racing with a delivery: topic A (one message of sender 7 buffered) has expired; a Send on another topic runs the
+	// collector (mark, yield point, sweep) while a message of ANOTHER sender (8) for topic A arrives. Replayed on three topics
+	// (topic limit 1), then every topic is started and sender 8 must still be served on a fresh topic: whatever the collector
+	// dropped, it must have released the bookkeeping of everybody whose data it dropped.
+	gcCfgs := []c14cfg{
+		{Name: "limit 1, expiry 3 epochs: A expired; Send M (collector) || recv A from a new sender", Pre: []string{"r:A:7:m0", "k", "k", "k", "k", "k"}, Threads: [][]string{{"s:M"}, {"r:A:8:x0"}}, Limit: e.Pick(3000, 100000)},
+		{Name: "limit 1, expiry 3 epochs: A expired; Send M (collector) || recv A from a new sender, recv A again", Pre: []string{"r:A:7:m0", "k", "k", "k", "k", "k"}, Threads: [][]string{{"s:M"}, {"r:A:8:x0", "r:A:8:x1"}}, Limit: e.Pick(3000, 100000)},
+	}
+	for i, cfg := range gcCfgs {
+		if !e.Mine(len(cfgs)+3+i) || p.ViolationCount() >= 3 {
+			continue
+		}
+		cfg := cfg
+		p.Begin(cfg.Name)
+		sawGC := false
+		run := func(prefix []int) ([]int, []int) {
+			ctlMu.Lock()
+			defer ctlMu.Unlock()
+			h := &boxHandler{}
+			b := newTickBox(h, 3)
+			defer boxTicks.Delete(b)
+			b.MaxInFlightTopicsBySender = 1
+			msg.SetVerifHook(func(string) {})
+			mkOp(b, "s:Z")() // starts the clock
+			mkOp(b, "k")()
+			var first, firstEn []int
+			var trace []string
+			for r := 0; r < rounds; r++ {
+				msg.SetVerifHook(func(string) {})
+				for _, d := range cfg.Pre {
+					mkOpShift(b, d, byte(r))()
+				}
+				s := ctlsched.New()
+				msg.SetVerifHook(s.Hook)
+				var ops [][]func()
+				for _, th := range cfg.Threads {
+					var o []func()
+					for _, d := range th {
+						o = append(o, mkOpShift(b, d, byte(r)))
+					}
+					ops = append(ops, o)
+				}
+				s.Start(ops)
+				ch, en, ok := s.Run(func(step int, enabled []*ctlsched.Thread) int {
+					src := prefix
+					if r > 0 {
+						src = first
+					}
+					if step < len(src) {
+						return src[step]
+					}
+					return 0
+				})
+				msg.SetVerifHook(func(string) {})
+				if r == 0 {
+					first, firstEn = ch, en
+					trace = s.Trace
+				}
+				if s.Points["gc.marked"] {
+					sawGC = true
+				}
+				if !ok {
+					p.Violate("stuck/"+cfg.Name, cfg.Name+": "+s.Deadlock, map[string]interface{}{"config": cfg, "schedule": s.Trace})
+					b.Stop()
+					return nil, nil
+				}
+			}
+			// start everything, then the probe
+			for r := 0; r < rounds; r++ {
+				mkOpShift(b, "s:A", byte(r))()
+			}
+			h.mu.Lock()
+			h.log = nil
+			h.mu.Unlock()
+			mkOp(b, "r:Y:8:probe")()
+			mkOp(b, "s:Y")()
+			b.Stop()
+			h.mu.Lock()
+			got := append([]string{}, h.log...)
+			h.mu.Unlock()
+			p.Case(cfg.Name+"#"+strings.Join(trace, " "), true)
+			p.Count("schedules", 1)
+			p.Count("gc_schedules", 1)
+			p.Count("probes_served", int64(len(got)))
+			if len(got) != 1 {
+				p.Violate("throttled-within-limits/after-collector-raced-a-delivery", fmt.Sprintf("%s: after %d topics whose expiry was collected while another sender's message for them arrived, and after every topic was started, that sender (nothing buffered any more) is not served on a fresh topic (probe released %v)", cfg.Name, rounds, got),
+					map[string]interface{}{"config": cfg, "schedule": trace})
+				return nil, nil
+			}
+			return first, firstEn
+		}
+		execs, exhaustive := ctlsched.Explore(cfg.Limit, run, func(ch []int) bool { return ch != nil && p.ViolationCount() < 3 })
+		p.SetExhaustive(cfg.Name, exhaustive)
+		if !sawGC {
+			p.Inconcl(cfg.Name + ": the yield point between the collector's passes was never reached (hook missing in this build?)")
+		}
+		p.Sample(map[string]interface{}{"config": cfg.Name, "schedules_enumerated": execs, "exhaustive": exhaustive})
 	}
 	// the topic limit under concurrent receives: a sender at its limit delivers on several fresh topics at the same time (one
 	// dispatcher goroutine per topic); whatever the interleaving, it may end up buffered in limit+1 topics at most. Afterwards
